@@ -89,3 +89,24 @@ def c16_probes(tier):
             if len(samples) < 3 and not expect_ok:
                 samples.append(dict(compile_probe=src.strip().splitlines()[-2].strip(), must="not compile", observed="compiles" if ok else "ill-formed"))
     return viol, dict(compile_probes=len(items), const_path_probes=n_const, mutable_control_probes=n_mut, controls_not_compiling=len(vacuous)), samples, vacuous
+
+
+def c12_probes(tier):
+    """composition of a projection with slicing must also compile in assertion-enabled builds"""
+    pre = """#include <boost/multi/array.hpp>
+namespace multi = boost::multi;
+int probe() { multi::array<int, %(D)d> A(multi::extensions_t<%(D)d>{%(EXT)s}, 1); auto&& t = A.element_transformed([](int x) { return 2*x; }); %(STMT)s }
+"""
+    items = []
+    for D in (1, 2, 3):
+        ext = ", ".join(["multi::iextension{3}"] * D)
+        idx = "[0]" * D
+        for name, stmt in (("sliced", "auto&& s = t.sliced(0, 2); return s%s;" % idx), ("call-range", "auto&& s = t({0, 2}); return s%s;" % idx), ("strided", "auto&& s = t.strided(1); return s%s;" % idx),
+                           ("rotated", "auto&& s = t.rotated(); return s%s;" % idx), ("dropped", "auto&& s = t.dropped(1); return s%s;" % idx)):
+            items.append(("D%d|element_transformed(f).%s|does-not-compile-with-assertions-enabled" % (D, name), pre % dict(D=D, EXT=ext, STMT=stmt), True))
+    viol = {}
+    with cf.ThreadPoolExecutor(max_workers=os.cpu_count() or 8) as ex:
+        for key, ok, expect_ok, first, src in ex.map(_compile, items):
+            if not ok:
+                viol[key] = dict(kind="compile-probe", statement=src.strip().splitlines()[-2].strip()[:300], expected="compiles", observed="ill-formed: " + first, replay=None)
+    return viol, dict(compile_probes=len(items)), [], []
